@@ -11,8 +11,9 @@ def led0 : Led := ⟨Meta.zero "VT", false, ⟨cfg0 "VT", fun _ => 0, fun _ _ =>
 structure S where
   mem : Meta
   led : Led
+  futMax : Option Int := none     -- op `future`: the largest committed lead (ms) of that sender's nonces
 
-def init : S := ⟨Meta.zero "VT", led0⟩
+def init : S := ⟨Meta.zero "VT", led0, none⟩
 
 def nat? (x : String) : Option Nat := x.toNat?
 
@@ -44,6 +45,18 @@ def step (fresh : Bool) (s : S) : List String → S × String
   | ["tracing", _] => (s, "ok")     -- a collector endpoint in the configuration: no effect on results
   | ["bal"] => (s, showBal s.led)
   | ["trace", _] => (s, "ok")
+  -- a nonce ahead of the simulating machine's clock by `d` ms: accepted or refused by the sender's
+  -- stored window alone (refused only when more than the TTL behind a committed one) — the wall
+  -- clock of whoever simulates plays no part. (Leads are ≥ 30 s apart, so clock drift cannot matter.)
+  | [mode, "future", d] =>
+    match d.toInt? with
+    | none => (s, "bad-op")
+    | some d =>
+      let committed := mode = "cb" ∨ mode = "ct"
+      if ¬ committed ∧ mode ≠ "db" ∧ mode ≠ "dt" then (s, "bad-op") else
+      let ok : Bool := match s.futMax with | none => true | some m => decide (m - d ≤ 50000)
+      if !ok then (s, "err") else
+      (if committed then { s with futMax := some (match s.futMax with | none => d | some m => max m d) } else s, "ok")
   | mode :: rest =>
     if mode = "xb" ∨ mode = "xt" then
       -- several transfers in one request: each atomic, all committed together
@@ -56,7 +69,7 @@ def step (fresh : Bool) (s : S) : List String → S × String
             let m := if fresh then Meta.zero "VT" else acc.1
             let r := invoke false m acc.2.1 ⟨transferBody f t a, true⟩
             (r.1, r.2.1, acc.2.2 ++ [showReply r.2.2])) (s.mem, s.led, [])
-        (⟨go.1, go.2.1⟩, ",".intercalate go.2.2)
+        ({ s with mem := go.1, led := go.2.1 }, ",".intercalate go.2.2)
       | _ => (s, "bad-op")
     else
     let committed := mode = "cb" ∨ mode = "ct"
@@ -66,7 +79,7 @@ def step (fresh : Bool) (s : S) : List String → S × String
     | some b =>
       let m := if fresh then Meta.zero "VT" else s.mem
       let r := invoke false m s.led ⟨b, committed⟩
-      (⟨r.1, r.2.1⟩, showReply r.2.2)
+      ({ s with mem := r.1, led := r.2.1 }, showReply r.2.2)
   | _ => (s, "bad-op")
 
 def machine : Machine := ⟨S, init, step false⟩
